@@ -1,7 +1,13 @@
 #!/usr/bin/env python3
 """setup: nothing to build; verify the tools this framework needs are present"""
 import shutil, sys, subprocess
-missing = [t for t in ("verus", "cargo", "python3") if not shutil.which(t)]
+missing = [t for t in ("verus", "cargo", "python3", "rsync") if not shutil.which(t)]
+try:
+    import tomllib  # noqa (python >= 3.11, used by tools/kani_unit.py)
+except Exception:
+    missing.append("python>=3.11 (tomllib)")
+r = subprocess.run("cargo kani --version", shell=True, capture_output=True, text=True)
+if r.returncode != 0: missing.append("cargo kani")
 if missing:
     print("missing tools:", missing); sys.exit(1)
 print("ok")
